@@ -144,15 +144,27 @@ SWEEP_DOCS = [
 ]
 
 
+def large_docs(seed):
+    long_v = "x" * 120
+    F = lambda n, val: (n, "", "%s: %s\n" % (n, val))
+    M = lambda n, k: (n, "# about %s\n# second comment line\n" % n, "%s: first\n" % n + "".join(" line %d %s\n" % (i, "y" * 30) for i in range(k)))
+    names = ["Source", "Section", "Priority", "Maintainer", "Uploaders", "Build-Depends", "Standards-Version", "Homepage"]
+    d1 = [("par", [F(names[0], "a"), F(names[1], long_v), M(names[2], 5), F(names[3], "m")]), ("raw", "\n# free\n\n"),
+          ("par", [M(names[4], 2), F(names[5], "b"), F(names[6], "4.6"), F(names[7], "h")]), ("raw", "\n"),
+          ("par", [F("Package", "p"), M("Description", 6)])]
+    return [d1, strip_final_newline(d1)]
+
+
 def units(tier, seed):
     out = [{"doc": d, "i": i} for i, d in enumerate(docs(seed))]
+    out += [{"doc": d, "i": 2000 + i, "large": True} for i, d in enumerate(large_docs(seed))]
     cs = sweep_chars()
     out += [{"sweep": cs[i:i + 16], "i": 1000 + i} for i in range(0, len(cs), 16)]
     return out
 
 
 def unit_cost(u, tier):
-    if "sweep" in u:
+    if "sweep" in u or u.get("large"):
         return 1
     return sum(len(it[1]) for it in u["doc"] if it[0] == "par") ** 2
 
@@ -186,6 +198,8 @@ def run_unit(u, tier, seed):
         return run_sweep(part, u["sweep"])
     td, gd = (2, 3) if tier == "quick" else (3, 4)
     base = {"doc": u["doc"]}
+    if u.get("large"):
+        td, gd = (1, 0) if tier == "quick" else (2, 0)
     _doc.explore(part, u["doc"], ops_full, td, gd, NL, base, ops_small)
     part.sample(dict(base, history=[ops_full(_doc.from_spec(u["doc"]))[3]]))
     return part
